@@ -79,13 +79,39 @@ def build_retry(r):
     raise ValueError(r)
 
 
+import dataclasses as _dc
+
+
+@_dc.dataclass
+class UserPolicy:
+    """a user-written RetryPolicy (the Protocol only asks for next()): a plain dataclass, hence unhashable, and without the
+    optional `seed` keyword"""
+    inner: Any
+
+    def next(self, elapsed_time: float, attempts: int, error: Exception) -> float | None:
+        return self.inner.next(elapsed_time, attempts, error)
+
+
+@_dc.dataclass
+class UserPolicySeed:
+    inner: Any
+
+    def next(self, elapsed_time: float, attempts: int, error: Exception, *, seed: int | None = None) -> float | None:
+        return self.inner.next(elapsed_time, attempts, error, seed=seed)
+
+
 def build_policy(p):
     if p is None:
         return None
     if p.get("legacy") == "const":
         return rp.ConstantDelayRetryPolicy(maximum_attempts=p["n"], delay=p["delay"])
-    return rp.retry_policy(retry=build_retry(p.get("retry")), wait=build_wait(p["wait"]),
-                           stop=build_stop(p["stop"]))
+    pol = rp.retry_policy(retry=build_retry(p.get("retry")), wait=build_wait(p["wait"]),
+                          stop=build_stop(p["stop"]))
+    if p.get("user") == "plain":
+        return UserPolicy(pol)
+    if p.get("user") == "seed":
+        return UserPolicySeed(pol)
+    return pol
 
 
 # ---------------------------------------------------------------------------
@@ -198,5 +224,8 @@ def gen_policy(tape, cfg: dict[str, Any]) -> dict | None:
     if mode == "simple":
         n = tape.rng_int(1, 4, "pol.n")
         d = tape.choice(cfg.get("retry_delays", [0, 0, 1, 2]), "pol.d")
-        return {"retry": None, "wait": ("fixed", d) if d else ("none",), "stop": ("attempt", n)}
+        pol = {"retry": None, "wait": ("fixed", d) if d else ("none",), "stop": ("attempt", n)}
+        if cfg.get("p_user_policy") and tape.chance(cfg["p_user_policy"], 100, "pol.user"):
+            pol["user"] = tape.choice(["plain", "seed"], "pol.user.kind")
+        return pol
     raise ValueError(mode)
